@@ -755,8 +755,11 @@ ALL += [C12_INIT_OBS, C12_INIT_PLATES]
 #   f.create_dataset(NAME, data=d[, compression="gzip"])  appends (NAME, d) to the datasets; an existing NAME raises
 #   f.attrs[NAME] = v / f.attrs[NAME]                      set / read an attribute (KeyError when absent)
 #   f[NAME][:]                                             the stored array (KeyError when absent)
-#   encode_string_array / decode_string_array / .astype(str) on a string array: the identity on its values; the
-#       translator keeps str arrays (`name`) and bytes arrays (`bname`) apart, so a missing codec call is refused
+#   encode_string_array / decode_string_array: translated themselves (C02_CODEC, per array rank); inside them
+#       arr.size == 0, np.empty(arr.shape, dtype=...) (= arr where it has no element), np.char.encode / decode (the identity on
+#       the strings of an array WITH elements; numpy answers an array without elements with a float64 array: an error)
+#   .astype(str) on a string array: the identity on its values; the translator keeps str arrays (`name`) and bytes
+#       arrays (`bname`) apart, so a missing codec call is refused
 #   self.<attr> of a Screen: the column of its rows / its id array / its mapping as a tuple of aligned arrays;  m[i]: projection
 # NAME is matched literally per dataset (table below): an unknown name has no primitive and stops the build.
 _KIND = {"S2": ("(h5_2d bname)", "V_S2", "h5_read_s2"), "N2": ("(h5_2d Z)", "V_N2", "h5_read_n2"),
@@ -778,10 +781,11 @@ def _h5_reads(table):               # one primitive per dataset name
     return [("__f['%s'][:]" % n, "!%s {f} K_%s" % (_KIND[k][2], n), _KIND[k][0], {"f": "h5raw"}) for n, k in table]
 
 
-_CODEC = [("encode_string_array(__a)", "{a}", "(h5_2d bname)", {"a": "(h5_2d name)"}),
-          ("encode_string_array(__a)", "{a}", "list bname", {"a": "list name"}),
-          ("decode_string_array(__a)", "{a}", "(h5_2d name)", {"a": "(h5_2d bname)"}),
-          ("decode_string_array(__a)", "{a}", "list name", {"a": "list bname"}),
+# encode_string_array / decode_string_array run the translated helpers (C02_CODEC below), per array rank
+_CODEC = [("encode_string_array(__a)", "!src_encode_string_array_2d {a}", "(h5_2d bname)", {"a": "(h5_2d name)"}),
+          ("encode_string_array(__a)", "!src_encode_string_array_1d {a}", "list bname", {"a": "list name"}),
+          ("decode_string_array(__a)", "!src_decode_string_array_2d {a}", "(h5_2d name)", {"a": "(h5_2d bname)"}),
+          ("decode_string_array(__a)", "!src_decode_string_array_1d {a}", "list name", {"a": "list bname"}),
           ("__a.astype(str)", "{a}", "list name", {"a": "list name"})]
 _TUPLE_ITEMS = [("__m[0]", "fst (fst {m})", "list name", {"m": _TMAP_T}), ("__m[1]", "snd (fst {m})", "list Z", {"m": _TMAP_T}),
                 ("__m[2]", "snd {m}", "list Z", {"m": _TMAP_T}),
@@ -789,6 +793,20 @@ _TUPLE_ITEMS = [("__m[0]", "fst (fst {m})", "list name", {"m": _TMAP_T}), ("__m[
 _SET_CTRL = [("f.attrs['control_treatment_name'] = __v", "f'", "h5_set_attr {state} K_control_treatment_name {v}")]
 _GET_CTRL = ("__f.attrs['control_treatment_name']", "!h5_attr {f} K_control_treatment_name", "name", {"f": "h5raw"})
 _C02 = dict(file="src/batchie/data.py", out="SrcPersist.v", imports="Model.Encode Model.Screen Model.Persist", overload=True)
+
+
+def _codec_fn(func, rank, src_t, dst_t, call, empty):
+    """the module-level helper `func` on an array of that rank: the `arr.size == 0` guard, np.empty, np.char.<codec>"""
+    return dict(_C02, func=func, name="src_%s_%dd" % (func, rank), pyparams=["arr"], params=[("arr", src_t)], returns=dst_t, vars={},
+                prims=[("arr.size == 0", "arr%d_empty arr'" % rank, "bool"),
+                       (empty, "!np_empty_like%d arr'" % rank, dst_t),
+                       (call, "!np_char_codec%d arr'" % rank, dst_t)])
+
+
+C02_CODEC = [_codec_fn("encode_string_array", 1, "list name", "list bname", "np.char.encode(arr)", "np.empty(arr.shape, dtype='S1')"),
+             _codec_fn("encode_string_array", 2, "(h5_2d name)", "(h5_2d bname)", "np.char.encode(arr)", "np.empty(arr.shape, dtype='S1')"),
+             _codec_fn("decode_string_array", 1, "list bname", "list name", "np.char.decode(arr, 'utf-8')", "np.empty(arr.shape, dtype=str)"),
+             _codec_fn("decode_string_array", 2, "(h5_2d bname)", "(h5_2d name)", "np.char.decode(arr, 'utf-8')", "np.empty(arr.shape, dtype=str)")]
 
 C02_SCREEN_SAVE = dict(
     _C02, cls="Screen", func="save_h5", name="src_screen_save_h5", pyparams=["self", "fn"],
@@ -856,4 +874,4 @@ C02_SPACE_LOAD = dict(
     prims=_CODEC + _h5_reads(_SPACE_DATASETS) + [_GET_CTRL],
     kwcalls=_SPACE_ON_ARRAYS,
 )
-ALL += [C02_SCREEN_SAVE, C02_SCREEN_LOAD, C02_SPACE_FROM_SCREEN, C02_SPACE_SAVE, C02_SPACE_LOAD]
+ALL += C02_CODEC + [C02_SCREEN_SAVE, C02_SCREEN_LOAD, C02_SPACE_FROM_SCREEN, C02_SPACE_SAVE, C02_SPACE_LOAD]
